@@ -26,6 +26,21 @@ pub fn ty_str(t: &Ty, cat: &Catalogue) -> String {
     }
 }
 
+/// Writes attribute arguments in one of four equivalent ways (see `StructSpec::style`).
+fn render_attrs(mut args: Vec<String>, style: u8, indent: &str) -> String {
+    if args.is_empty() {
+        return String::new();
+    }
+    if style == 1 || style == 3 {
+        args.reverse();
+    }
+    if style >= 2 {
+        args.iter().map(|a| format!("{indent}#[deserr({a})]\n")).collect()
+    } else {
+        format!("{indent}#[deserr({})]\n", args.join(", "))
+    }
+}
+
 fn rename_all_str(r: RenameAll) -> &'static str {
     match r {
         RenameAll::Camel => "camelCase",
@@ -43,7 +58,7 @@ pub fn default_expr(f: &FieldSpec) -> &'static str {
     }
 }
 
-fn field_attrs(f: &FieldSpec, concrete: bool, cat: &Catalogue) -> String {
+fn field_attrs(f: &FieldSpec, concrete: bool, cat: &Catalogue, style: u8) -> String {
     let mut a: Vec<String> = vec![];
     if let Some(r) = &f.rename {
         a.push(format!("rename = {:?}", r));
@@ -73,11 +88,7 @@ fn field_attrs(f: &FieldSpec, concrete: bool, cat: &Catalogue) -> String {
     if f.err_b {
         a.push("error = RecB".into());
     }
-    if a.is_empty() {
-        String::new()
-    } else {
-        format!("    #[deserr({})]\n", a.join(", "))
-    }
+    render_attrs(a, style, "    ")
 }
 
 fn decl_ty(f: &FieldSpec, cat: &Catalogue) -> String {
@@ -119,9 +130,9 @@ fn container_attrs(
     a
 }
 
-fn emit_fields(out: &mut String, fields: &[FieldSpec], concrete: bool, cat: &Catalogue, vis: &str) {
+fn emit_fields(out: &mut String, fields: &[FieldSpec], concrete: bool, cat: &Catalogue, vis: &str, style: u8) {
     for f in fields {
-        out.push_str(&field_attrs(f, concrete, cat));
+        out.push_str(&field_attrs(f, concrete, cat, style));
         let _ = writeln!(out, "    {vis}{}: {},", f.ident, decl_ty(f, cat));
     }
 }
@@ -132,11 +143,9 @@ pub fn emit_item(out: &mut String, i: usize, cat: &Catalogue) {
         Item::Struct(s) => {
             let attrs = container_attrs(s.rename_all, s.deny, s.validate, s.concrete, None);
             let _ = writeln!(out, "#[derive(Debug, Deserr)]");
-            if !attrs.is_empty() {
-                let _ = writeln!(out, "#[deserr({})]", attrs.join(", "));
-            }
+            out.push_str(&render_attrs(attrs, s.style, ""));
             let _ = writeln!(out, "pub struct {name} {{");
-            emit_fields(out, &s.fields, s.concrete, cat, "pub ");
+            emit_fields(out, &s.fields, s.concrete, cat, "pub ", s.style);
             let _ = writeln!(out, "}}");
             let _ = writeln!(out, "impl Dump for {name} {{\n    fn dump(&self) -> Doc {{\n        Doc::Obj(vec![");
             for f in &s.fields {
@@ -152,9 +161,7 @@ pub fn emit_item(out: &mut String, i: usize, cat: &Catalogue) {
             } else {
                 let _ = writeln!(out, "#[derive(Debug, Deserr)]");
             }
-            if !attrs.is_empty() {
-                let _ = writeln!(out, "#[deserr({})]", attrs.join(", "));
-            }
+            out.push_str(&render_attrs(attrs, e.style, ""));
             let _ = writeln!(out, "pub enum {name} {{");
             for v in &e.variants {
                 let mut a = vec![];
@@ -164,9 +171,7 @@ pub fn emit_item(out: &mut String, i: usize, cat: &Catalogue) {
                 if let Some(r) = v.rename_all {
                     a.push(format!("rename_all = {}", rename_all_str(r)));
                 }
-                if !a.is_empty() {
-                    let _ = writeln!(out, "    #[deserr({})]", a.join(", "));
-                }
+                out.push_str(&render_attrs(a, e.style, "    "));
                 match &v.fields {
                     None => {
                         let _ = writeln!(out, "    {},", v.ident);
@@ -174,7 +179,7 @@ pub fn emit_item(out: &mut String, i: usize, cat: &Catalogue) {
                     Some(fs) => {
                         let _ = writeln!(out, "    {} {{", v.ident);
                         let mut inner = String::new();
-                        emit_fields(&mut inner, fs, e.concrete, cat, "");
+                        emit_fields(&mut inner, fs, e.concrete, cat, "", e.style);
                         for l in inner.lines() {
                             let _ = writeln!(out, "    {l}");
                         }
